@@ -92,14 +92,14 @@ CLAIMED = {
                      "sum of normalised neighbour gaps (per-objective step law), for fronts and pools of any size.",
                 note=TRUST + " sorted() with a proved total preorder and list(set()) are library models; float division uninterpreted.",
                 tech="deductive verification: total-preorder lemmas, set/sort library models, loop invariants with ghost extreme witnesses (pyvc/z3)"),
-    "C02": dict(cat="exploration", ref="5/C02",
-                text="BOUNDED, not proved: the complete rank specification (front 1 = exactly the non-dominated members; every member of a "
-                     "later front has all its dominators in earlier fronts and one in the previous front; nobody unranked) is evaluated on the "
-                     "real fast_nondominated_sorting over every sequence of n<=3 (quick) / n<=4 (thorough) points of a 3x3 grid (all order "
-                     "types and input orders) plus random populations n<=7. Deductively proved parts: the id lookup, crowding_distance per "
-                     "front, and three consequences of the specification as lemmas.",
-                note=TRUST + " The sorter itself is a bounded run-time contract evaluation (stated bound), never counted as proved.",
-                tech="bounded exhaustive run-time evaluation of the contract on the real function (stand-in); deductive verification of Selector.individual and lemmas (pyvc/z3)"),
+    "C02": dict(cat="other", ref="5/C02, 9.4",
+                text="Partial: for every population and input order it is PROVED (invariants over all seven loops of the real sorter) that "
+                     "front 1 is exactly the non-dominated subset and that no front number is below 1; the id lookup, crowding_distance per "
+                     "front and consequences of the rank specification are proved as well. The rank law for later fronts and 'nobody "
+                     "unranked' are NOT proved: the complete specification is evaluated on the real function over all order types and input "
+                     "orders of n<=3 (quick) / n<=4 (thorough) points of a 3x3 grid plus random populations n<=7 (bounded).",
+                note=TRUST + " Later fronts: bounded run-time contract only, never counted as proved.",
+                tech="deductive verification of the front-1 clause (nested-loop invariants with weak counter invariants; pyvc/z3) + bounded exhaustive run-time evaluation of the complete rank specification"),
     "C08": dict(cat="proof", ref="5/C08, 9.4",
                 text="Operator.clip, polynomial / uniform / non-uniform mutation and simulated binary crossover are verified for every box, "
                      "parent (also on the bounds, coincident parents), probability, distribution index and iteration number: children have the "
